@@ -524,10 +524,20 @@ pub fn policy_json(p: &Policy) -> Value {
     }
 }
 
+thread_local! {
+    /// when set, runs belong to a group of renderings of one abstract value: the reference of a variant
+    /// is the group's canonical rendering, not a run over the same bytes
+    static GROUP: std::cell::RefCell<Option<String>> = const { std::cell::RefCell::new(None) };
+}
+pub fn set_group(g: Option<String>) {
+    GROUP.with(|c| *c.borrow_mut() = g);
+}
+
 /// One traced run.
 pub fn run_traced(id: u64, input: &[u8], cfg: &RunCfg) {
     let limit = cfg.fault.unwrap_or(input.len()).min(input.len());
-    trace::rec(json!({"ev":"reset","kind":"parser","id":id,"parser":cfg.parser,"lit":cfg.lit,"flag":cfg.flag,
+    let group = GROUP.with(|c| c.borrow().clone()).unwrap_or_default();
+    trace::rec(json!({"ev":"reset","kind":"parser","id":id,"group":group,"parser":cfg.parser,"lit":cfg.lit,"flag":cfg.flag,
         "input":bytes_json(input),"limit":limit,"faulty":cfg.fault.is_some(),"chunk":cfg.chunk,
         "policy":policy_json(&cfg.policy),"lines": matches!(cfg.policy, Policy::Lines), "intr":cfg.intr_pm > 0,
         "ref":cfg.is_ref,"build":cfg.build,"bufreader":cfg.bufreader.is_some()}));
